@@ -7,7 +7,7 @@ from ..catalogue import RECIPES, ConstOperands, PolyOperands, P, resolve, operan
 from ..core import Failure
 
 ID = "C11"
-BUDGET = {"quick": 3000, "thorough": 6000}
+BUDGET = {"quick": 3000, "thorough": 16000}
 TECHNIQUE = ("Hypothesis-generated numeric arrays and per-function arguments: numpoly on constant polynomials vs "
              "numpy itself on the raw arrays (differential), plus FeatureNotSupported for non-constant divisors")
 LEVEL_TEXT = ("Every catalogue entry that mirrors a numpy function is called on constant polynomials built from "
